@@ -35,6 +35,7 @@ class Ctx:
         self.evaluations = 0
         self.t0 = time.time()
         self.sets = {}
+        self.checkpoint = None  # path: what has been observed so far is saved there whenever a violation is recorded
 
     @property
     def quick(self):
@@ -62,6 +63,14 @@ class Ctx:
         if len(self.violations) < 200:
             self.violations.append({"monitor": monitor, "msg": msg, "witness": witness})
         self.count("violations_raw")
+        if self.checkpoint and len(self.violations) <= 20:
+            # a shard that hangs or crashes later (a broken tree may do either) must not take its witnesses with it
+            try:
+                with open(self.checkpoint + ".tmp", "w") as f:
+                    json.dump(self.result(), f, default=repr)
+                os.replace(self.checkpoint + ".tmp", self.checkpoint)
+            except OSError:
+                pass
 
     def elapsed(self):
         return time.time() - self.t0
